@@ -163,7 +163,7 @@ def _collect(node, name):
     return collect_ast(node, name)
 
 
-def cleanup_observations(prg, inputs):
+def cleanup_observations(prg, inputs, backward=False):
     """one request per top-level body literal `cleanup` deleted because another body literal supersedes it:
     (pre, rule before, rule after, post, :- p., :- q.) as s-expression texts, in the order of the deletions, each against the
     program as it was at that moment; + the number of deletions outside the shape of the theorem (inside conditions,
@@ -206,10 +206,22 @@ def cleanup_observations(prg, inputs):
         CleanupTranslator._remove_superseed_from_list, CleanupTranslator._superseeded = real_rm, real_sup
     if cur["prg"] is None or len(cur["done"]) != len(cur["prg"]):
         return [], 0
+    false = Literal(LOC, Sign.NoSign, BooleanConstant(False))
+    fwd = _cleanup_chain(cur, range(len(cur["done"])), false, Rule, LOC)
+    if not backward:
+        return fwd
+    # the same deletions, the statements taken from the last to the first: every step is the same literal deleted from the
+    # same rule, against the program as it is at that moment of THIS order.  (The pass decides all deletions on the
+    # untouched program; a deletion justified by a rule that an earlier step has already shortened is justified in the
+    # other order.  Any order of proved steps is a proof for the final program.)
+    return fwd, _cleanup_chain(cur, range(len(cur["done"]) - 1, -1, -1), false, Rule, LOC)
+
+
+def _cleanup_chain(cur, order, false, Rule, LOC):
     current = list(cur["prg"])
     obs, other = [], 0
-    false = Literal(LOC, Sign.NoSign, BooleanConstant(False))
-    for i, (stm, out, events) in enumerate(cur["done"]):
+    for i in order:
+        stm, out, events = cur["done"][i]
         for top, lhs, rhs in events:
             if not top or stm.ast_type != ASTType.Rule:
                 other += 1
@@ -529,15 +541,23 @@ def run(rng, n_gen, corpus_limit=None, kinds=None) -> dict:
         for before, aux, upd, ctxp in (projection_observations(_preprocess(_parse(text)), inputs) if want("projection") else []):
             reqs.append(f'(sem_split_cond {before} {aux} {upd} {ctxp})')
             meta.append(("projection", text, (aux, upd), 1))
-        cobs, cother = cleanup_observations(_preprocess(_parse(text)), inputs) if want("cleanup") else ([], 0)
+        both = cleanup_observations(_preprocess(_parse(text)), inputs, backward=True) if want("cleanup") else None
+        if both is not None and both and isinstance(both[0], tuple):
+            (cobs, cother), (bobs, _) = both
+        else:
+            cobs, cother, bobs = [], 0, []
         hist["cleanup: deletions inside conditions or objectives (outside the theorem)"] += cother
-        for pre, before, after, post, pr, qr, what in cobs:
-            if pre == "anon":
-                reqs.append(f'(sem_anon_cond {before} {after} {post} {pr} {qr})')   # (before, after, :- p., :- q., F)
-                meta.append(("cleanup-copy", text, what, 1))
-            else:
-                reqs.append(f'(sem_implied_cond {pre} {before} {after} {post} {pr} {qr})')
-                meta.append(("cleanup", text, what, 1))
+        tag = f"cl{len(meta)}"
+        for order_name, lst in (("", cobs), ("@backward", bobs)):
+            for pre, before, after, post, pr, qr, what in lst:
+                if pre == "anon":
+                    if order_name:
+                        continue   # a strong equivalence: the order is immaterial, counted once
+                    reqs.append(f'(sem_anon_cond {before} {after} {post} {pr} {qr})')   # (before, after, :- p., :- q., F)
+                    meta.append(("cleanup-copy", text, what, 1))
+                else:
+                    reqs.append(f'(sem_implied_cond {pre} {before} {after} {post} {pr} {qr})')
+                    meta.append(("cleanup" + order_name + "#" + tag, text, what, 1))
         for cname, ptext, pairs in (domain_observations(_preprocess(_parse(text)), inputs) if want("domains") else []):
             reqs.append(f'(sem_dom_cond {ptext} ({pairs}))')
             meta.append(("domains", text, cname, 1))
@@ -571,9 +591,26 @@ def run(rng, n_gen, corpus_limit=None, kinds=None) -> dict:
     unsupported = 0
     nontrivial = 0
     pos = 0
+    # cleanup: the deletions of one program were requested in two orders; the order with more proved steps counts
+    score = collections.Counter()
+    p2 = 0
+    for kind, text, what, n in meta:
+        group = answers[p2:p2 + n]
+        p2 += n
+        if kind.startswith("cleanup") and "#" in kind:
+            good = [a for a in group if isinstance(a, list) and a and a[0] == "ok"]
+            score[kind] += sum(1 for a in good if str(a[1]) == "1" and str(a[2]) == "1")
     for kind, text, what, n in meta:
         group = answers[pos:pos + n]
         pos += n
+        if kind.startswith("cleanup") and "#" in kind:
+            base, tag = kind.split("#")
+            other_kind = ("cleanup#" if base.endswith("@backward") else "cleanup@backward#") + tag
+            if score[other_kind] > score[kind] or (score[other_kind] == score[kind] and base.endswith("@backward")):
+                continue
+            if base.endswith("@backward"):
+                hist["cleanup: programs whose deletions are proved in the backward order of the statements"] += 1
+            kind = "cleanup"
         good = [a for a in group if isinstance(a, list) and a and a[0] == "ok"]
         if not good:
             unsupported += 1
